@@ -26,12 +26,39 @@ func genLeaf(name string) map[string]any {
 	return n
 }
 
+// genSlimNode: the second level of the reduced depth-2 family — an optional fixed child 'in' (a plain leaf), an optional
+// variable child '$id' with the pattern ^[0-9]+$ (a plain leaf), else a fixed child 'out'; optionally an account itself
+func genSlimNode(name string) map[string]any {
+	n := map[string]any{}
+	has := false
+	if nondetChoice(name+".in", 2) == 1 {
+		n["in"] = map[string]any{}
+		has = true
+	}
+	if nondetChoice(name+".var", 2) == 1 {
+		n["$id"] = map[string]any{".pattern": "^[0-9]+$"}
+		has = true
+	}
+	if !has {
+		n["out"] = map[string]any{}
+	}
+	if nondetChoice(name+".self", 2) == 1 {
+		n[".self"] = map[string]any{}
+	}
+	return n
+}
+
+var chartSlimSecondLevel = false
+
 // genNode: a node with sub-segments
 func genNode(name string, depth int) map[string]any {
 	n := map[string]any{}
 	sub := func(child string) map[string]any {
 		if depth > 1 {
 			if nondetChoice(name+"."+child+".deep", 2) == 1 {
+				if chartSlimSecondLevel {
+					return genSlimNode(name + "." + child)
+				}
 				return genNode(name+"."+child, depth-1)
 			}
 			return genLeaf(name + "." + child)
@@ -265,7 +292,14 @@ func checkChartAnyDecodeOrder(maxLen int, first, second bool) {
 	verifReach("end")
 }
 
-func Harness_CHART_order1_len2() { checkChartAnyDecodeOrder(2, true, false) }
-func Harness_CHART_order2_len2() { checkChartAnyDecodeOrder(2, false, true) }
+func Harness_CHART_order1_len2()  { checkChartAnyDecodeOrder(2, true, false) }
+func Harness_CHART_order2_len2()  { checkChartAnyDecodeOrder(2, false, true) }
 func Harness_CHART_orderT1_len3() { checkChartAnyDecodeOrder(3, true, false) }
 func Harness_CHART_orderT2_len3() { checkChartAnyDecodeOrder(3, false, true) }
+
+// reduced depth-2 family: the first level is the full family, a child that is itself a node comes from genSlimNode
+func Harness_CHART_d2r_len3() {
+	chartSlimSecondLevel = true
+	checkChart(2, 3)
+	chartSlimSecondLevel = false
+}
